@@ -72,10 +72,17 @@ def create(kind, path, out, piece_length=None, progress=0, **kw):
         return fd.read()
 
 
+class CliExit(Exception):
+    """The command line front end called sys.exit (argparse rejected the arguments)."""
+
+
 def cli(argv):
     tf = use_repo()
     with quiet():
-        return tf.execute(list(argv))
+        try:
+            return tf.execute(list(argv))
+        except SystemExit as exc:
+            raise CliExit(f"exit status {exc.code} for {list(argv)!r}"[:400]) from None
 
 
 def decode(raw):
